@@ -281,8 +281,9 @@ namespace avel {
         typename std::enable_if<N < mask4x64u::width, int>::type dummy_variable = 0;
 
         #if defined(AVEL_AVX512VL) || defined(AVEL_AVX10_1)
-        auto mask = b << N;
-        return mask4x64u{__mmask8((decay(m) & ~mask) | mask)};
+        auto bit = std::uint64_t(1) << N;
+        auto mask = std::uint64_t(b) << N;
+        return mask4x64u{__mmask8((decay(m) & ~bit) | mask)};
 
         #elif defined(AVEL_AVX2)
         return mask4x64u{_mm256_insert_epi64(decay(m), b ? -1ll : 0, N)};
